@@ -211,7 +211,11 @@ def check_interface(f, opts):
                 if isinstance(func, ast.Lambda):
                     return ('interface-name-changed', 'lambda-parameter'), '%r -> %r' % (p.bname, p.rname)
                 exempt = False
+                # "directly in a class body" = the def binds its name in the class namespace (it may sit inside an if/for/try/with/match
+                # block of the class body), as opposed to being nested in another function
                 owner = parents.get(id(func))
+                while owner is not None and not isinstance(owner, (ast.ClassDef, ast.Lambda, ast.Module) + FUNC):
+                    owner = parents.get(id(owner))
                 if isinstance(func, FUNC) and isinstance(owner, ast.ClassDef) and kind == 'positional-or-keyword':
                     allargs = getattr(args, 'posonlyargs', []) + args.args
                     if allargs and allargs[0] is p.b:
